@@ -53,11 +53,19 @@ Theorem c14_missing_setting_names_full_path_partial : forall o rp name idx root,
 Proof. exact get_value_missing_names_path. Qed.
 Print Assumptions c14_missing_setting_names_full_path_partial.
 
+(* a walk that stops names the path walked so far: the path of the node it stands on and the
+   name that is missing there (pp is that node's path) - also when the last step runs into a
+   value that holds no settings *)
 Theorem c14_walk_stops_at_missing_field_partial : forall rp f f2 rest pp cur,
   get_field f pp cur = Ok None ->
-  get_path_go rp (f :: f2 :: rest) pp cur = Err EMissing (path_of rp (field_str f)).
+  get_path_go rp (f :: f2 :: rest) pp cur = Err EMissing (path_of pp (field_str f)).
 Proof. exact get_path_inner_missing. Qed.
 Print Assumptions c14_walk_stops_at_missing_field_partial.
+
+Theorem c14_last_step_names_full_path_partial : forall rp f pp cur r s,
+  get_field f pp cur = Err r s -> get_path_go rp [f] pp cur = Err EMissing (path_of pp (field_str f)).
+Proof. exact get_path_last_field_missing. Qed.
+Print Assumptions c14_last_step_names_full_path_partial.
 
 Theorem c14_conversion_failure_keeps_reason_partial : forall f o th vts val k r p,
   is_nil (Some val) = false -> conv (r_ft o) (vo_dur (r_vo o)) k val = Err r p ->
